@@ -213,7 +213,7 @@ WKB_CODE = {'pt': 1, 'ls': 2, 'pg': 3, 'mp': 4, 'ml': 5, 'mg': 6, 'gc': 7, 'cs':
 
 class WkbOut:
     def __init__(self, rng):
-        self.b = bytearray(); self.marks = []; self.rng = rng
+        self.b = bytearray(); self.marks = []; self.rng = rng; self.contra = False
 
     def header(self, code, dim, style):
         big = style.get('big', False) if self.rng.random() < 0.9 else not style.get('big', False)
@@ -222,7 +222,22 @@ class WkbOut:
         hasz = dim >= 3 and style.get('zm', 'z') != 'm' or dim == 4
         hasm = dim == 4 or (dim == 3 and style.get('zm', 'z') == 'm')
         t = code
-        if style.get('iso'):
+        if style.get('mix'):
+            # the dimension flags exist in two conventions (ISO: +1000 Z, +2000 M, +3000 ZM; EWKB: bit 31 Z, bit 30 M) and the reader
+            # merges them: each ordinate the body carries is flagged in the ISO way, the EWKB way or BOTH (consistent double flags,
+            # Z in one convention and M in the other, ...); rarely a flag is set for an ordinate the body does NOT carry (contradictory)
+            iz = im = ez = em = False
+            if hasz:
+                w = self.rng.choice(['iso', 'ewkb', 'both', 'both']); iz = w != 'ewkb'; ez = w != 'iso'
+            elif self.rng.random() < style.get('contra', 0.0):
+                w = self.rng.choice(['iso', 'ewkb', 'both']); iz = w != 'ewkb'; ez = w != 'iso'; self.contra = True
+            if hasm:
+                w = self.rng.choice(['iso', 'ewkb', 'both', 'both']); im = w != 'ewkb'; em = w != 'iso'
+            elif self.rng.random() < style.get('contra', 0.0):
+                w = self.rng.choice(['iso', 'ewkb', 'both']); im = w != 'ewkb'; em = w != 'iso'; self.contra = True
+            t += 1000 * ((1 if iz else 0) + (2 if im else 0))
+            t |= (0x80000000 if ez else 0) | (0x40000000 if em else 0)
+        elif style.get('iso'):
             t += 1000 * ((1 if hasz else 0) + (2 if hasm else 0))
         else:
             t |= (0x80000000 if hasz else 0) | (0x40000000 if hasm else 0)
@@ -270,6 +285,14 @@ def wkb_encode(rng, t):
                  srid=(rng.choice([0, 4326, -1, 2 ** 31 - 1, 2 ** 32 - 1]) if rng.random() < 0.3 else None))
     o = WkbOut(rng); o.geom(t, style)
     return bytes(o.b), o.marks
+
+
+def wkb_encode_mixed_flags(rng, t, contra):
+    """like wkb_encode, every header (top level and inner elements) flags its dimension through both conventions at random"""
+    style = dict(big=rng.random() < 0.4, mix=True, contra=contra, zm=rng.choice(['z', 'm']),
+                 srid=(rng.choice([0, 4326, -1]) if rng.random() < 0.25 else None))
+    o = WkbOut(rng); o.geom(t, style)
+    return bytes(o.b), o.marks, o.contra
 
 
 # ---- WKT text of a tree (own writer: the inputs are never produced by GEOS)
@@ -407,6 +430,17 @@ def mutate_wkb(rng, data, marks):
                 big = b[prev[-1][0]] == 0
             b[off:off + 4] = struct.pack('>I' if big else '<I', v & 0xffffffff)
             return bytes(b), 'count'
+        if kind == 'type' and rng.random() < 0.3:
+            # keep the type word, add dimension flags of the other / of both conventions on top of what it has
+            prev = [m for m in marks if m[1] == 'bo' and m[0] < off]
+            big = b[prev[-1][0]] == 0 if prev else False
+            v0 = struct.unpack('>I' if big else '<I', bytes(b[off:off + 4]))[0]
+            low = v0 & 0xffff
+            v = rng.choice([v0 | 0x80000000, v0 | 0x40000000, v0 | 0xC0000000,
+                            (v0 & 0xffff0000) | ((low % 1000) + 1000 * rng.randint(1, 3)),
+                            (v0 & 0x3fff0000) | ((low % 1000) + 1000 * rng.randint(1, 3)) | rng.choice([0x80000000, 0x40000000, 0xC0000000])])
+            b[off:off + 4] = struct.pack('>I' if big else '<I', v & 0xffffffff)
+            return bytes(b), 'typeflags'
         if kind == 'type':
             v = rng.choice([0, 13, 14, 15, 16, 17, 99, 255, 999, 1000, 1001, 2003, 3007, 4001, 65535, 0x80000001, 0x40000002, 0xC0000003, 0x20000001,
                             0xE0000007, 0x1000000A, 0x00010001, 0xffffffff, rng.randint(1, 12), rng.randint(1, 12) + 1000 * rng.randint(1, 3), rng.randint(1, 12) | rng.choice([0x80000000, 0x40000000, 0x20000000])])
@@ -631,6 +665,18 @@ def gen_cases(rng, quick):
             for k in range(0, len(s), step):
                 cases.append(Case('J', text_bytes(s[:k]), 'geojson:truncate-all'))
     # ---- token soup and number notations (WKT), unstructured random strings (all)
+    # ---- dimension flags in both conventions: ISO offsets combined with the EWKB high bits, at the top level and on inner elements
+    for i in range(900 if quick else 20000):
+        dim = rng.choice([3, 3, 4, 4, 4, 2])
+        t = gen_tree(rng, rng.choice([0, 1, 1, 2]), dim, rng.random() < 0.15, None, rng.choice([0.0, 0.0, 0.05]))
+        data, marks, contra = wkb_encode_mixed_flags(rng, t, 0.0 if i % 3 else 0.25)
+        cls = 'dblflags-contra' if contra else 'dblflags'
+        if rng.random() < 0.3:
+            data, c = mutate_wkb(rng, data, marks); cls = 'dblflags-' + c
+        if i % 5 == 4:
+            cases.append(Case('H', data.hex().encode(), 'hex:' + cls))
+        else:
+            cases.append(Case('B', data, 'wkb:' + cls))
     for _ in range(1500 if quick else 20000):
         n = rng.randint(1, 14)
         s = ''.join(rng.choice(WKT_WORDS + WKT_NUMS + WKT_PUNCT * 4) + rng.choice(['', ' ', ' ']) for _ in range(n))
@@ -942,7 +988,7 @@ def run(ctx):
     def alloc_limit(c, slots):
         return 65536 + 128 * len(c.data) + 8 * slots
 
-    dist = {}; verdicts = {}; postd = {}
+    dist = {}; verdicts = {}; postd = {}; dbl = {}
     f14 = known_entry(ctx, 'F14'); f2 = known_entry(ctx, 'F2')
     nviol = 0
     worst_t = {}; worst_a = {}
@@ -950,6 +996,8 @@ def run(ctx):
         c = cases[i]; r = impl[i]; md = model[i]
         rd = reader_of(c)
         dist[c.cls] = dist.get(c.cls, 0) + 1
+        if ':dblflags' in c.cls and md:
+            dbl[md['v']] = dbl.get(md['v'], 0) + 1
         mstats = md['stats'] if md else {}
         depth = mstats.get('dmax', c.depth_hint) if md else c.depth_hint
         nontrivial = (mstats.get('nodes', 0) >= 1) if md else len(c.data) > 8
@@ -1025,6 +1073,9 @@ def run(ctx):
                     ctx.broken.append(dict(kind='correspondence', name='%s reader %d: model and implementation differ (%s)' % (rd, i, c.cls),
                                            detail='input (%s, %d bytes): %s\nmodel: %s\nimpl:  %s' % (c.mode, len(c.data), c.data[:400].hex(), json.dumps(md)[:600], json.dumps(r)[:600])))
     ctx.cov['traces_validated_against_impl'] = sum(1 for i in run_idx if model[i] is not None)
+    ctx.notes['double_dimension_flags(model verdict)'] = dict(sorted(dbl.items()))
+    if dbl.get('ACC', 0) < 100 or dbl.get('REJ', 0) < 50:
+        ctx.broken.append(dict(kind='generator', name='distribution', detail='too few WKB cases with dimension flags in both conventions: %s' % dbl))
     ctx.notes['distribution'] = dict(sorted(dist.items()))
     ctx.notes['verdicts(model/implementation)'] = dict(sorted(verdicts.items()))
     ctx.notes['post_operation_flags'] = dict(sorted(postd.items(), key=lambda kv: -kv[1])[:12])
@@ -1036,7 +1087,7 @@ def run(ctx):
     # number grammar: the model's is_number against the tokenizer's own classification, through a one-coordinate probe
     number_grammar(ctx, drv, hexe, margs, rng)
     # generator self-check: the case splits of the proofs must have been drawn
-    need = ['wkb:count', 'wkb:type', 'wkb:truncate', 'wkb:nest', 'wkb:nest-typed', 'wkt:nest-typed', 'geojson:nest-typed', 'wkb:nest-inflated', 'wkt:nest', 'wkt:token-soup', 'wkt:swap-number', 'hex:hex-badchar', 'geojson:wrong-type', 'wkb:flat', 'wkt:flat', 'geojson:flat']
+    need = ['wkb:dblflags', 'hex:dblflags', 'wkb:dblflags-contra', 'wkb:typeflags', 'wkb:count', 'wkb:type', 'wkb:truncate', 'wkb:nest', 'wkb:nest-typed', 'wkt:nest-typed', 'geojson:nest-typed', 'wkb:nest-inflated', 'wkt:nest', 'wkt:token-soup', 'wkt:swap-number', 'hex:hex-badchar', 'geojson:wrong-type', 'wkb:flat', 'wkt:flat', 'geojson:flat']
     for n in need:
         if not any(k.startswith(n) for k in dist):
             ctx.broken.append(dict(kind='generator', name='distribution', detail='no case of class %s was run' % n))
